@@ -51,6 +51,17 @@ EndOK(r) == r.pos = pos /\ r.pos = <<start[1] + 256, 0>>
 \* ---- C03 events ---------------------------------------------------------
 Flag(r, f) == r[f] = 1
 
+\* the text of a bit pattern given as 16-bit words (most significant first) with an exponent field of w bits:
+\* 0 / 1 for the bits, 2 for the two separating spaces
+RECURSIVE Pow2N(_)
+Pow2N(k) == IF k = 0 THEN 1 ELSE 2 * Pow2N(k - 1)
+BitAt(ws, i) == LET word == ws[Len(ws) - (i \div 16)] IN (word \div Pow2N(i % 16)) % 2          \* bit i, 0 = least significant
+BitsText(ws, w) ==
+    LET nb == 16 * Len(ws) IN
+    [k \in 1..(nb + 2) |-> IF k = 1 THEN BitAt(ws, nb - 1)
+                            ELSE IF k = 2 \/ k = w + 3 THEN 2
+                            ELSE IF k < w + 3 THEN BitAt(ws, nb - (k - 1))
+                            ELSE BitAt(ws, nb - (k - 2))]
 ClsOK(r) ==
     LET h == I!Dec16(r.h)
         c == I!Class(H, h)
@@ -64,8 +75,11 @@ ClsOK(r) ==
         /\ r.fpc = FloatClassOf(h)                   \* fpclassify((float) h)
         /\ Flag(r, "fsb") = (h.sign = 1)             \* signbit((float) h)
         /\ r.negbits = NegBits(r.h)                  \* unary minus flips the sign bit only
-        /\ r.text = r.h                              \* << then >> reproduces finite halves
-           \/ ~I!IsFinite(H, h)
+        /\ (r.text = r.h                             \* << then >> reproduces finite halves
+            \/ ~I!IsFinite(H, h))
+        \* printBits: sign, space, exponent, space, significand - most significant bit first; 18 / 34 characters
+        /\ r.pb = BitsText(<<r.h>>, 5) /\ r.pbc = r.pb
+        /\ r.pbf = BitsText(r.fw, 8) /\ r.pbfc = r.pbf
 
 \* n is logged as a word pair (it is an unsigned 32-bit argument)
 RoundRecOK(r) ==
